@@ -11,7 +11,7 @@ import (
 // C20 — retry wait is honoured between attempts and is interruptible (virtual clock).
 
 type c20Mon struct {
-	ctx        *vCtx
+	ctx        *vRunCtx
 	w          time.Duration
 	budget     int
 	execs      int
@@ -74,7 +74,7 @@ func (m *c20Mon) setup() {
 	vUnwind(maxN + 2)
 	m.w = vNondet[time.Duration]("w")
 	vAssume(m.w >= -(1<<40) && m.w <= 1<<40)
-	m.ctx = vNewCtx()
+	m.ctx = vNewRunCtx("run")
 	if vNondet[bool]("withCancel") {
 		m.tc = vNondet[time.Duration]("tc")
 		vAssume(m.tc >= 0 && m.tc <= 1<<42)
